@@ -211,6 +211,25 @@ def rule_moved_from(ck, rule="E5", fns=("w_copy_assign", "w_move_assign", "w_swa
                         "buffer it gave away (at %s)" % (fn, e.kind, show(addr)[:120], show(atom(st))[:60], tu.where(sm, e)), config=tu.cfg, witness=fn)
 
 
+def rule_self(ck, rule="E6", fns=("w_self_copy_assign", "w_self_move_assign")):
+    """self copy / move assignment of an element preserves it exactly: no object is constructed, destroyed or assigned,
+    nothing is allocated, released or copied, and the storage bookkeeping is unchanged"""
+    tu, rec = ck.tu, ck.rec
+    for fn in fns:
+        if not tu.has(fn):
+            continue
+        sm = tu.S(fn)
+        bad = [e for e in sm.events if e.kind in ("DTOR", "CTOR_COPY", "CTOR_MOVE", "ASSIGN_COPY", "ASSIGN_MOVE", "ALLOC", "DEALLOC", "MEMCPY", "MEMMOVE", "MEMSET")
+               and not Facts([e.guard]).infeasible() and tu.libfn(sm, e) != "?"]   # (events of the library, not of the witness's observers)
+        rec.ob(rule, not bad, {"config": tu.cfg, "witness": fn, "obligation": "no lifecycle, allocator or bulk-copy event"})
+        for e in bad[:1]:
+            rec.finding(rule, "%s:%s[%s]" % (fn.replace("w_", ""), e.kind, ck.catkey()),
+                        "%s performs %s (%s) at %s: self-assignment must leave the element untouched" % (fn, e.kind, show(e.args[0])[:80] if e.args else "", tu.where(sm, e)),
+                        config=tu.cfg, witness=fn)
+        for fld in ("begin", "mc", "end"):
+            ck.eq(rule, fn, "%s unchanged by self-assignment" % fld, tu.obs(fn, "post", fld), tu.obs(fn, "pre", fld), Facts(), key="%s:%s-changed" % (fn.replace("w_", ""), fld))
+
+
 def rule_EQ(ck, rule="EQ1"):
     """allocator-extended construction: the new element's allocator is the one given (C08 for elements)"""
     tu, rec = ck.tu, ck.rec
